@@ -17,7 +17,9 @@ RULE = ("convex solids from gen.convex_solid (C01 generator: all kinds, rigid mo
         "embedded in random planes, scaled 1e-3..1e3, both orientations / explicit / opposing normal; circles, ellipses, "
         "spheres, ellipsoids with log-uniform semi-axes incl. ties; forced miniball failures (0,1,2,3,9,10 LinAlgErrors); "
         "seed sweeps: cospherical vertex sets (prisms, boxes, antiprisms, Platonic/Archimedean solids, regular / cyclic "
-        "polygons, rectangles; generic prisms over polygons inscribed in an ellipse; unrotated, quarter-turned, randomly rotated) each under 40 (quick) / 100 (thorough) states of "
+        "polygons, rectangles; NEARLY tangential rectangles / kites / boxes / prisms (relative defect eps in 1e-6..1e-1) at 0, 1, "
+        "10 diameters from the origin, rotated, all orientations (thorough also 1e2..1e4 diameters as a stress class outside "
+        "the quantifier); generic prisms over polygons inscribed in an ellipse; unrotated, quarter-turned, randomly rotated) each under 40 (quick) / 100 (thorough) states of "
         "Python's global `random`. distinct = distinct case dicts; non-trivial = a shape with >= 3 (polygon) / 4 (solid) "
         "vertices or a curved shape")
 ASSUMPTIONS = [
@@ -586,9 +588,15 @@ def check_in(ctx, case, cls, attr, p, verts, Ls, d, planes_or, model_sys, model_
         c2, r_or, rho = tangent_fit(N2, D2, d)
         c_or = None if c2 is None else fr[0] + c2[0] * fr[1] + c2[1] * fr[2]
     else:
-        c_or, r_or, rho = tangent_fit(N, D, d)
+        # decide in coordinates relative to the vertex mean (the decision must not depend on the placement)
+        m0 = verts.mean(axis=0)
+        c_or, r_or, rho = tangent_fit(N, D + N @ m0, d)
+        c_or = None if c_or is None else c_or + m0
     if rho is None:
         return
+    if "eps" in case.get("info", {}):
+        ctx.count("near-tangential:rho:%s" % ("<1e-9" if rho <= RHO_LO else "1e-9..1e-4" if rho < 1e-4 else
+                                             "1e-4..1e-3" if rho < RHO_HI else "1e-3..3e-3" if rho < 3e-3 else ">=3e-3"))
     small = len(verts) <= thresh
     exists = (rho <= RHO_LO and r_or > 0) or small
     absent = (not small) and rho >= RHO_HI
@@ -1448,6 +1456,61 @@ def eval_sweep(ctx, case):
         eval_case(ctx, sub)
 
 
+NEAR_EPS = [1e-6, 1e-5, 1e-4, 3e-4, 1e-3, 2e-3, 3.4e-3, 5e-3, 1e-2, 3e-2, 1e-1]
+
+
+def make_near_tangential_case(rng, ctx, family, eps=None, offset=None, shape=None, stress=False):
+    """NEARLY tangential shapes: a tangential polygon / polyhedron spoilt by a relative eps (rectangle a x a(1+eps),
+    kite with one vertex pushed out, box a x a x a(1+eps), tangential prism with height (1+eps)), rigidly placed at
+    0, 1 or 10 diameters from the origin (stress: 1e2..1e4, outside the property's quantifier). The existence
+    decision must not depend on the placement: no in-ball by a clear relative margin => RuntimeError everywhere."""
+    import rowan
+    seed = int(rng.integers(2 ** 31))
+    eps = float(NEAR_EPS[int(rng.integers(len(NEAR_EPS)))]) if eps is None else float(eps)
+    if offset is None:
+        offset = float([1e2, 1e3, 1e4][int(rng.integers(3))]) if stress else float([0, 1, 10][int(rng.integers(3))])
+    a = float(np.exp(rng.uniform(-0.5, 0.5)))
+    rot = rowan.to_matrix(rowan.normalize(rng.normal(size=4))) if rng.random() < 0.75 else np.eye(3)
+    direction = rng.normal(size=3)
+    direction /= np.linalg.norm(direction)
+    kindp = "stress-far" if stress else "near-tangential"
+    if family == "polygon":
+        shape = shape or ["rect", "kite"][int(rng.integers(2))]
+        if shape == "rect":
+            p2 = np.array([[0, 0], [a * (1 + eps), 0], [a * (1 + eps), a], [0, a]])
+        else:
+            b, c = rng.uniform(0.5, 1.5, size=2)
+            p2 = np.array([[0, -a], [b * (1 + eps), 0], [0, c], [-b, 0]])
+        v = np.c_[p2, np.zeros(len(p2))] @ rot.T
+        d = gen.diameter(v)
+        v = v + direction * offset * d
+        n = rot[:, 2]
+        orient = ["default", "explicit", "cw-about-normal", "reversed-default"][int(rng.integers(4))]
+        normal = None
+        if orient == "explicit":
+            normal = n.tolist()
+        elif orient == "cw-about-normal":
+            normal = (-n).tolist()
+        elif orient == "reversed-default":
+            v = v[::-1].copy()
+        return {"family": "polygon", "vertices": v.tolist(), "normal": normal,
+                "cls": "ConvexPolygon" if rng.random() < 0.5 else "Polygon", "seed": seed,
+                "info": {"kind": "%s:%s" % (kindp, shape), "eps": eps, "offset_diams": offset, "orient": orient, "n": len(v)}}
+    shape = shape or ["box", "prism"][int(rng.integers(2))]
+    if shape == "box":
+        v = np.array([[x, y, z] for x in (0, 1) for y in (0, 1) for z in (0, 1)], dtype=float) * [a, a, a * (1 + eps)]
+    else:
+        k = int(rng.integers(3, 8))
+        v = _regular_prism(k, 2 * np.cos(np.pi / k) * (1 + eps)) * a
+    v = v @ rot.T
+    v = v + direction * offset * gen.diameter(v)
+    v = v[rng.permutation(len(v))]
+    if not gen.in_convex_position(v):
+        return None
+    return {"family": "polyhedron", "vertices": v.tolist(), "seed": seed,
+            "info": {"kind": "%s:%s" % (kindp, shape), "eps": eps, "offset_diams": offset, "scale": 1.0, "rotated": True}}
+
+
 # fixed regression witnesses (defects repaired in /repo: they must be caught if they return)
 def witnesses():
     cube = [[x, y, z] for x in (0.0, 1.0) for y in (0.0, 1.0) for z in (0.0, 1.0)]
@@ -1543,6 +1606,23 @@ def run(ctx):
                       "info": dict(info, kind="tabulated:" + fam, name=name)})
     for _ in range(ctx.budget(40, 800)):
         cases.append(make_curved_case(rng, ctx))
+    # nearly tangential shapes at 0 / 1 / 10 diameters from the origin; two of them always sit in the window where a
+    # placement-dependent tolerance would start to accept (relative defect ~1.2e-3 at 10 diameters)
+    for fam, eps_, shp in (("polygon", 3.4e-3, "rect"), ("polyhedron", 3.6e-3, "box")):
+        c = make_near_tangential_case(rng, ctx, fam, eps=eps_, offset=10.0, shape=shp)
+        if c is not None:
+            cases.append(c)
+    for fam, n in (("polygon", ctx.budget(24, 480)), ("polyhedron", ctx.budget(12, 240))):
+        for _ in range(n):
+            c = make_near_tangential_case(rng, ctx, fam)
+            if c is not None:
+                cases.append(c)
+    if ctx.tier == "thorough":
+        for fam, n in (("polygon", ctx.budget(0, 120)), ("polyhedron", ctx.budget(0, 60))):
+            for _ in range(n):
+                c = make_near_tangential_case(rng, ctx, fam, stress=True)
+                if c is not None:
+                    cases.append(c)
     for _ in range(ctx.budget(16, 160)):
         c = make_sweep_case(rng, ctx, 40 if ctx.tier == "quick" else 100)
         if c is not None:
